@@ -12,7 +12,7 @@ import keyword
 
 from . import common as cm
 
-ANCHORS = ["pyflyby._format:fill", "pyflyby._format:pyfill",
+ANCHORS = ["pyflyby._cmdline:parse_args", "pyflyby._format:fill", "pyflyby._format:pyfill",
            "pyflyby._importstmt:Import.split", "pyflyby._importstmt:Import.from_split",
            "pyflyby._importstmt:ImportStatement._from_imports", "pyflyby._importstmt:ImportStatement.imports",
            "pyflyby._importstmt:ImportStatement.pretty_print",
@@ -22,7 +22,7 @@ ANCHORS = ["pyflyby._format:fill", "pyflyby._format:pyfill",
            "pyflyby._importclns:ImportSet.with_imports", "pyflyby._importclns:ImportSet.without_imports",
            "pyflyby._importclns:ImportSet.pretty_print", "pyflyby._idents:dotted_prefixes"]
 
-REQ = ["Imports.Import", "Imports.ImportSet", "Imports.Format", "Imports.ImportLex", "Imports.Wire"]
+REQ = ["Imports.Import", "Imports.ImportSet", "Imports.Format", "Imports.ImportLex", "Imports.Cli", "Imports.Wire"]
 
 # ---------------------------------------------------------------------------------------------
 # generators
@@ -221,8 +221,12 @@ def gen_cases(ctx, n):
     for i in range(n):
         r = cm.rng(ctx.seed, "c11", i)
         k = i % 20
-        if k < 13:
+        if k < 11:
             cases.append(gen_set_case(r, i))
+        elif k < 12:
+            cases.append(gen_seq_case(r, i))
+        elif k < 13:
+            cases.append(gen_cli_case(r, i, None))
         elif k < 14:
             cases.append(gen_split_case(r, i))
         elif k < 16:
@@ -256,6 +260,200 @@ def exhaustive_cases(ctx, limit):
                         if len(cases) >= limit:
                             return cases
     return cases
+
+
+# ---------------------------------------------------------------------------------------------
+# sequences of operations on ONE ImportSet object (instance-level caches), and the command-line tools
+
+def gen_seq_case(r, i):
+    base = gen_set_case(r, i)
+    imports = base["imports"]
+    ops = []
+    P0 = base["params"]
+    for _ in range(r.randint(3, 7)):
+        k = r.random()
+        if k < .55:
+            P = dict(P0)
+            # vary a few fields only, so that successive prints share width / column / from_spaces
+            for f in r.sample(["hanging", "indent", "width", "align", "from_spaces", "separate", "align_future"], r.choice([1, 1, 2, 3])):
+                P[f] = rand_params(r)[f]
+            ops.append(["print", P])
+            if r.random() < .5:
+                P0 = P
+        elif k < .7:
+            ops.append(["repr"])
+        elif k < .8:
+            ops.append(["statements", r.random() < .5])
+        elif k < .9:
+            names = [a for _, a in imports] or ["q"]
+            ops.append(["by_import_as", r.choice(names)])
+        else:
+            pool = [dotted(r, 1, 2)]
+            extra = []
+            for _ in range(r.randint(1, 2)):
+                f, a = rand_import(r, pool)
+                extra.append([f, a if a is not None else f.split(".")[-1]])
+            ops.append(["with", extra])
+    return {"kind": "seq", "i": i, "imports": imports, "shadow": base["shadow"], "ops": ops}
+
+
+CLI_FLAG_POOL = ["width", "hanging", "align", "from_spaces", "separate", "align_future", "uniform", "unaligned"]
+
+
+def rand_flag(r, name):
+    if name == "width":
+        return ["width", r.choice([30, 40, 50, 60, 79, 100])]
+    if name == "hanging":
+        return ["hanging", r.choice(["never", "auto", "always"])]
+    if name == "align":
+        return ["align", r.choice([[0], [1], [32], [24], [8, 16], [16, 40, 24]])]
+    if name == "from_spaces":
+        return ["from_spaces", r.choice([1, 2, 3, 5])]
+    if name in ("separate", "align_future"):
+        return [name, r.random() < .5]
+    return [name]
+
+
+def gen_cli_case(r, i, perm_pool):
+    base = gen_set_case(r, i)
+    # well-formed, import-only file: unique local names, identifiers short enough to make wrapping depend on the options
+    pool = [dotted(r, 1, 2) for _ in range(2)]
+    imports, seen = [], set()
+    for _ in range(r.randint(3, 9)):
+        f, a = rand_import(r, pool)
+        if f.startswith("."):
+            continue
+        a = a if a is not None else f.split(".")[-1]
+        if len(f) > 45 or (a in seen and a != "*") or (f, a) in [tuple(x) for x in imports]:
+            continue
+        seen.add(a)
+        imports.append([f, a])
+    if len(imports) < 2:
+        imports += [["os.path.join", "join"], ["collections.OrderedDict", "OD"], ["sys", "sys"]]
+    script = "tidy-imports" if r.random() < .65 else "reformat-imports"
+    k = r.randrange(4)
+    nflags = r.choice([2, 3, 3, 4])
+    names = r.sample(CLI_FLAG_POOL, nflags)
+    if r.random() < .7 and not ({"uniform", "unaligned"} & set(names)):
+        names[r.randrange(len(names))] = r.choice(["uniform", "unaligned"])
+    flags = [rand_flag(r, n) for n in names]
+    if r.random() < .3:                                  # the same destination twice: last wins
+        flags.append(rand_flag(r, r.choice([n for n in names if n not in ("uniform", "unaligned")] or ["width"])))
+    r.shuffle(flags)
+    pyproject = None
+    if script == "tidy-imports" and k != 0:
+        pyproject = {}
+        for n in r.sample(["width", "hanging", "align", "from_spaces", "separate", "align_future"], r.randint(1, 4)):
+            fl = rand_flag(r, n)
+            pyproject[n] = fl[1]
+        if k == 1:
+            flags = []                                   # (b) settings only in pyproject.toml
+        elif k == 2:                                     # (c) contradicting: the command line wins
+            flags = [rand_flag(r, n) for n in pyproject if r.random() < .8] + flags
+            r.shuffle(flags)
+    return {"kind": "cli", "i": i, "script": script, "imports": imports, "flags": flags, "pyproject": pyproject}
+
+
+def cli_argv(flags, r_short):
+    out = []
+    for j, fl in enumerate(flags):
+        n = fl[0]
+        short = (r_short + j) % 2 == 0
+        if n == "width":
+            out.append("--width=%d" % fl[1])
+        elif n == "hanging":
+            out.append("--hanging-indent=%s" % fl[1])
+        elif n == "align":
+            out.append(("--align=%s" if short else "--align-imports=%s") % ",".join(map(str, fl[1])))
+        elif n == "from_spaces":
+            out.append("--from-spaces=%d" % fl[1])
+        elif n == "separate":
+            out.append("--separate-from-imports" if fl[1] else "--no-separate-from-imports")
+        elif n == "align_future":
+            out.append("--align-future" if fl[1] else "--no-align-future")
+        elif n == "uniform":
+            out.append("-u" if short else "--uniform")
+        elif n == "unaligned":
+            out.append("-n" if short else "--unaligned")
+    return out
+
+
+def pyproject_text(pp):
+    lines = ["[tool.other]", "width = 5", "", "[tool.pyflyby]"]
+    for k, v in pp.items():
+        if k == "width":
+            lines.append("width = %d" % v)
+        elif k == "hanging":
+            lines.append('hanging_indent = "%s"' % v)
+        elif k == "align":
+            lines.append('align_imports = "%s"' % ",".join(map(str, v)))
+        elif k == "from_spaces":
+            lines.append("from_spaces = %d" % v)
+        elif k == "separate":
+            lines.append("separate_from_imports = %s" % ("true" if v else "false"))
+        elif k == "align_future":
+            lines.append("align_future = %s" % ("true" if v else "false"))
+    return "\n".join(lines) + "\n"
+
+
+def render_import_file(imports):
+    """one statement per import, __future__ first (plain Python, no pyflyby)"""
+    lines = []
+    for f, a in sorted(imports, key=lambda x: (not x[0].startswith("__future__."), 0)):
+        if f == a:
+            lines.append("import %s" % f)
+        elif "." not in f:
+            lines.append("import %s as %s" % (f, a))
+        else:
+            m, b = f.rsplit(".", 1)
+            lines.append("from %s import %s%s" % (m, b, "" if a == b else " as " + a))
+    return "\n".join(lines) + "\n"
+
+
+def effective_params(flags, pyproject):
+    """documented meaning: every option stores its destination, the shortcuts are their documented expansion,
+    for one destination the last one on the command line wins; command line > pyproject > defaults"""
+    eff = {"width": None, "hanging": "never", "align": [32], "from_spaces": 3, "separate": False, "align_future": False}
+    for k, v in (pyproject or {}).items():
+        eff[k] = v
+    expanded = []
+    for fl in flags:
+        if fl[0] == "uniform":
+            expanded += [["separate", False], ["from_spaces", 3], ["align", [32]]]
+        elif fl[0] == "unaligned":
+            expanded += [["separate", True], ["from_spaces", 1], ["align", [0]]]
+        else:
+            expanded.append(fl)
+    for n, v in expanded:
+        eff[n] = v
+    al = eff["align"]
+    align = {"bool": True} if al == [1] else {"bool": False} if al == [0] else {"cols": sorted(set(al))}
+    return {"width": eff["width"], "indent": 4, "hanging": eff["hanging"], "align": align, "from_spaces": eff["from_spaces"],
+            "separate": eff["separate"], "align_future": eff["align_future"]}
+
+
+def run_cli(script, argv, cwd):
+    """the real bin/ script of REPO, in this process"""
+    import contextlib
+    import io
+    import os
+    import runpy
+    import sys
+    old_argv, old_cwd = sys.argv, os.getcwd()
+    out, err = io.StringIO(), io.StringIO()
+    os.chdir(cwd)
+    sys.argv = [script] + argv
+    try:
+        with contextlib.redirect_stdout(out), contextlib.redirect_stderr(err):
+            try:
+                runpy.run_path(script, run_name="__main__")
+                code = 0
+            except SystemExit as e:
+                code = e.code or 0
+    finally:
+        sys.argv = old_argv
+        os.chdir(old_cwd)
+    return code, out.getvalue(), err.getvalue()[-300:]
 
 
 # ---------------------------------------------------------------------------------------------
@@ -299,6 +497,48 @@ def impl_case(c):
             res["reprint"] = _printed(again)
             res["reread"] = _printed(lambda: sorted(_pairs(ImportSet(text)._importset)))
         return res
+    if k == "seq":
+        s = ImportSet([Import.from_parts(f, a) for f, a in c["imports"]], ignore_shadowed=c["shadow"])
+        res = {"set": sorted(_pairs(s._importset)), "conflicts": sorted(s.conflicting_imports), "ops": []}
+        for op in c["ops"]:
+            if op[0] == "print":
+                P = _params(op[1])
+                pr = _printed(lambda: s.pretty_print(P))
+                o = {"print": pr}
+                if "text" in pr:
+                    text = pr["text"]
+                    o["reprint"] = _printed(lambda: ImportSet(text).pretty_print(P))
+                res["ops"].append(o)
+            elif op[0] == "repr":
+                res["ops"].append({"repr": repr(s)})
+            elif op[0] == "statements":
+                res["ops"].append({"statements": [[st.fromname, [list(a) for a in st.aliases]] for st in s.get_statements(separate_from_imports=op[1])]})
+            elif op[0] == "by_import_as":
+                res["ops"].append({"by": _pairs(s.by_import_as.get(op[1], ()))})
+            elif op[0] == "with":
+                res["ops"].append({"with": sorted(_pairs(s.with_imports(ImportSet([Import.from_parts(f, a) for f, a in op[1]]))._importset))})
+        return res
+    if k == "cli":
+        import os
+        import shutil
+        import tempfile
+        d = tempfile.mkdtemp(prefix="verif-c11cli-")
+        try:
+            with open(os.path.join(d, "t.py"), "w") as fh:
+                fh.write(render_import_file(c["imports"]))
+            if c["pyproject"] is not None:
+                with open(os.path.join(d, "pyproject.toml"), "w") as fh:
+                    fh.write(pyproject_text(c["pyproject"]))
+            argv = ["--print"] + (["--no-add", "--no-remove-unused"] if c["script"] == "tidy-imports" else [])
+            argv += cli_argv(c["flags"], c["i"] if isinstance(c["i"], int) else 0) + ["t.py"]
+            script = os.path.join(os.environ.get("VERIF_REPO", "/repo"), "bin", c["script"])
+            code, out, err = run_cli(script, argv, d)
+        finally:
+            shutil.rmtree(d, ignore_errors=True)
+        eff = effective_params(c["flags"], c["pyproject"] if c["script"] == "tidy-imports" else None)
+        s = ImportSet([Import.from_parts(f, a) for f, a in c["imports"]], ignore_shadowed=True)
+        return {"argv": argv, "code": code, "out": out, "err": err, "effective": eff,
+                "lib": _printed(lambda: s.pretty_print(_params(eff)))}
     if k == "split":
         imp = Import.from_parts(*c["imp"])
         sp = imp.split
@@ -363,7 +603,47 @@ def model_exprs(cases):
         elif k == "soup":
             exprs.append("run_parse %s" % cm.cstr(c["text"]))
             index.append((ci, "parse"))
+        elif k == "seq":
+            for oi, op in enumerate(c["ops"]):
+                if op[0] == "print":
+                    exprs.append("run_print %s %s %s" % (c_params(op[1]), cm.cbool(c["shadow"]), c_pairs(c["imports"])))
+                elif op[0] == "repr":
+                    exprs.append("run_print_allow_conflicts %s %s" % (cm.cbool(c["shadow"]), c_pairs(c["imports"])))
+                elif op[0] == "statements":
+                    exprs.append("run_statements %s %s %s" % (cm.cbool(c["shadow"]), cm.cbool(op[1]), c_pairs(c["imports"])))
+                elif op[0] == "by_import_as":
+                    exprs.append("show_imports (by_import_as (from_imports %s (mk_imports %s)) %s)" % (cm.cbool(c["shadow"]), c_pairs(c["imports"]), cm.cstr(op[1])))
+                elif op[0] == "with":
+                    exprs.append("show_imports (with_imports (from_imports %s (mk_imports %s)) (from_imports false (mk_imports %s)))" % (cm.cbool(c["shadow"]), c_pairs(c["imports"]), c_pairs(op[1])))
+                index.append((ci, "op%d" % oi))
+        elif k == "cli":
+            py = c["pyproject"] if c["script"] == "tidy-imports" else None
+            exprs.append("run_cli_print %s %s true %s" % (c_cli_opts([[n, v] for n, v in (py or {}).items()]), c_cli_opts(c["flags"]), c_pairs(c["imports"])))
+            index.append((ci, "cli"))
     return exprs, index
+
+
+def c_cli_opts(flags):
+    out = []
+    for fl in flags:
+        n = fl[0]
+        if n == "width":
+            out.append("OWidth %s" % cm.cnat(fl[1]))
+        elif n == "hanging":
+            out.append("OHanging %s" % {"never": "Never", "auto": "Auto", "always": "Always"}[fl[1]])
+        elif n == "align":
+            out.append("OAlign %s" % cm.clist([cm.cnat(x) for x in fl[1]]))
+        elif n == "from_spaces":
+            out.append("OFromSpaces %s" % cm.cnat(fl[1]))
+        elif n == "separate":
+            out.append("OSeparate %s" % cm.cbool(fl[1]))
+        elif n == "align_future":
+            out.append("OAlignFuture %s" % cm.cbool(fl[1]))
+        elif n == "uniform":
+            out.append("OUniform")
+        elif n == "unaligned":
+            out.append("OUnaligned")
+    return cm.clist(out)
 
 
 # ---------------------------------------------------------------------------------------------
@@ -524,6 +804,52 @@ def compare(ctx, cases, impl, index, model):
                 ctx.violation(clause, c, detail)
             ctx.bump("align:" + next(iter(c["params"]["align"])))
             ctx.bump("hanging:" + c["params"]["hanging"])
+        elif k == "seq":
+            for oi, (op, o) in enumerate(zip(c["ops"], im["ops"])):
+                m = mv["op%d" % oi]
+                sub = {"kind": "seq", "i": c["i"], "imports": c["imports"], "shadow": c["shadow"], "ops": c["ops"][:oi + 1]}
+                if op[0] == "print":
+                    if m != o["print"]:
+                        ctx.disagreement("ImportSet.pretty_print (same object, operation %d)" % oi, sub, o["print"], m)
+                    fake = {"set": im["set"], "conflicts": im["conflicts"], "print": o["print"], "reprint": o.get("reprint")}
+                    for clause, detail in oracle_set(ctx, {"params": op[1]}, fake):
+                        ctx.violation(clause, sub, "operation %d on one ImportSet object: %s" % (oi, detail))
+                    nontriv = True
+                elif op[0] == "repr":
+                    want = None
+                    if "text" in m:
+                        want = "ImportSet(\'\'\'\n%s\'\'\')" % "".join("  " + l for l in m["text"].splitlines(True))
+                    if want != o["repr"]:
+                        ctx.disagreement("ImportSet.__repr__ (same object, operation %d)" % oi, sub, o["repr"], want)
+                elif op[0] == "statements":
+                    if m != o["statements"]:
+                        ctx.disagreement("ImportSet.get_statements (same object, operation %d)" % oi, sub, o["statements"], m)
+                elif op[0] == "by_import_as":
+                    if m != o["by"]:
+                        ctx.disagreement("ImportSet.by_import_as (same object, operation %d)" % oi, sub, o["by"], m)
+                elif op[0] == "with":
+                    if m != o["with"]:
+                        ctx.disagreement("ImportSet.with_imports (same object, operation %d)" % oi, sub, o["with"], m)
+            ctx.bump("seq")
+            ctx.bump("seq:ops", len(c["ops"]))
+        elif k == "cli":
+            m = mv["cli"]
+            if im["code"] != 0:
+                ctx.violation("no_internal_error", c, "%s exited with %r: %s" % (c["script"], im["code"], im["err"]))
+            else:
+                # oracle: the tool's block is the library's block under the documented effective params
+                if im["lib"] != {"text": im["out"]}:
+                    ctx.violation("cli_effective_params", c,
+                                  "%s %s prints %r; the documented effective parameters %r give %r" %
+                                  (c["script"], " ".join(im["argv"]), im["out"], im["effective"], im["lib"]))
+                if m["print"] != {"text": im["out"]}:
+                    ctx.disagreement("fold_format_options + print_set vs bin/%s" % c["script"], c, im["out"], m)
+                fake = {"set": sorted(c["imports"]), "conflicts": [], "print": {"text": im["out"]}, "reprint": {"text": im["out"]}}
+                for clause, detail in oracle_set(ctx, {"params": im["effective"]}, fake):
+                    if clause in ("roundtrip", "valid_python", "width"):
+                        ctx.violation(clause, c, detail)
+            nontriv = bool(c["flags"]) or c["pyproject"] is not None
+            ctx.bump("cli:" + c["script"] + (":pyproject" if c["pyproject"] is not None else "") + (":flags" if c["flags"] else ""))
         elif k == "split":
             if mv["split"] != im:
                 ctx.disagreement("Import.split/from_split", c, im, mv["split"])
@@ -554,7 +880,7 @@ def compare(ctx, cases, impl, index, model):
 
 def run(ctx):
     n = 1600 if ctx.quick else 40000
-    ctx.coverage["rule"] = ("cases from one seeded PRNG: 65% import sets x parameter draws (45% of them with the width aimed at a statement's "
+    ctx.coverage["rule"] = ("cases from one seeded PRNG: 5% sequences of operations on one ImportSet object, 5% command-line runs of bin/tidy-imports / bin/reformat-imports (flags in generated orders, [tool.pyflyby] of a pyproject.toml, both), 55% import sets x parameter draws (45% of them with the width aimed at a statement's "
                             "one-line length -2..+2), 5% Import.split on strings over 'ab.*_', 10% pyfill (60% at the auto/one-line boundaries), 5% set algebra, 15% token soup "
                             "for the parser; thorough adds all sets of <=3 imports over an 11-import alphabet x widths x hanging x align; "
                             "non-trivial = the set printed at least one line / the split has a module / pyfill wrapped / soup is a valid "
